@@ -76,6 +76,15 @@ impl<A> Drop for Context<A> {
     }
 }
 
+impl<A> Context<A> {
+    /// Abort all timers (intervals, delayed sends and executions) registered so far.
+    pub(crate) fn abort_tasks(&mut self) {
+        for task in self.tasks.drain(..) {
+            task.abort();
+        }
+    }
+}
+
 /// Life-cycle
 impl<A: Actor> Context<A> {
     /// Stop the actor.
